@@ -236,7 +236,7 @@ def judge(case, ctx):
         from petl import config as pcfg
         pcfg.sort_buffersize = 2
     if arity == 2:
-        plain.append(C.table_join(3) if second_schema == 'join' else C.table_same(3))
+        plain.append(C.table_joinrev(3) if second_schema == 'joinrev' else (C.table_join(3) if second_schema == 'join' else C.table_same(3)))
     before = copy.deepcopy(plain)
     srcs = [probes.guard(t) for t in plain]
     if variant == 'ragged':
